@@ -30,6 +30,9 @@
 #include "snoopy.h"
 #include "configuration.h"
 #include "message.h"
+#ifdef SNOOPY_CONF_THREAD_SAFETY_ENABLED
+#include "tsrm.h"
+#endif
 
 #include <stdio.h>
 #include <stdlib.h>
@@ -67,9 +70,21 @@ int snoopy_output_syslogoutput (char const * const logMessage, __attribute__((un
     char syslogIdent[SNOOPY_SYSLOG_IDENT_FORMAT_BUF_SIZE] = {'\0'};
     snoopy_message_generateFromFormat(syslogIdent, SNOOPY_SYSLOG_IDENT_FORMAT_BUF_SIZE, SNOOPY_SYSLOG_IDENT_FORMAT_BUF_SIZE, CFG->syslog_ident_format);
 
+    /*
+     * openlog(), syslog() and closelog() serialise on a lock inside the C library
+     * that fork() does not reset: a child forked while another thread is in here
+     * would block in its own syslog() call for good. Keep fork() out meanwhile
+     * (same guard as for the other fork-unsafe C library calls).
+     */
+#ifdef SNOOPY_CONF_THREAD_SAFETY_ENABLED
+    snoopy_tsrm_forkUnsafeLibcCall_enter();
+#endif
     openlog(syslogIdent, LOG_PID, CFG->syslog_facility);
     syslog(CFG->syslog_level, "%s", logMessage);
     closelog();
+#ifdef SNOOPY_CONF_THREAD_SAFETY_ENABLED
+    snoopy_tsrm_forkUnsafeLibcCall_leave();
+#endif
 
     return (int) strlen(logMessage);
 }
